@@ -31,3 +31,20 @@ pub open spec fn is_ws(b: u8) -> bool { b == 0x20 || b == 0x09 || b == 0x0d || b
 pub open spec fn spec_name_len(s: Seq<u8>) -> nat decreases s.len() {
     if s.len() == 0 || is_ws(s[0]) { 0 } else { 1 + spec_name_len(s.subrange(1, s.len() as int)) }
 }
+
+/// helper of normalisation N13: equality of byte slices (verified)
+pub fn bytes_eq(a: &[u8], b: &[u8]) -> (r: bool)
+    ensures r == (a@ == b@)
+{
+    if a.len() != b.len() { return false; }
+    let mut i = 0;
+    while i < a.len()
+        invariant i <= a@.len(), a@.len() == b@.len(), forall|j: int| 0 <= j < i ==> a@[j] == b@[j],
+        decreases a@.len() - i
+    {
+        if a[i] != b[i] { return false; }
+        i = i + 1;
+    }
+    proof { assert(a@ =~= b@); }
+    true
+}
